@@ -16,8 +16,12 @@ Correspondence: the compact register layouts generated statically from the regis
 (a mismatch is an infrastructure error, not a verdict), and the Lean model's export / parse / computed-field
 functions (drv_c12) are compared byte-for-byte / value-for-value with the real ones.
 
+A thin CLI stream drives the click entry points (pfr, ifr, nxpimage bca|fcf|tz, nxpimage bootable-image fcb|xmcd):
+get-template -> generate/export -> parse -> generate/export again.
+
 The work is spread over a process pool (fork); every case derives its own PRNG from (VERIF_SEED, case id), so the
-result does not depend on scheduling.
+result does not depend on scheduling.  Quick tier: every row gets the template chain and one random vector, the full
+vector set runs on one seed-chosen row per distinct generated layout; thorough: everything on every row.
 """
 from __future__ import annotations
 
@@ -838,6 +842,8 @@ def _area_specific(A, o1, b1, inp, rec, kind, settings, cfg, rng, keys):
         from spsdk.image.xmcd.xmcd import MEMORY_INTERFACE_TO_VALUE
         E(((hdr >> 20) & 0xF) == MEMORY_INTERFACE_TO_VALUE[A.mt] and ((hdr >> 12) & 0xF) == A.ct.tag, inp,
           "XMCD header word does not name the memory interface / block type of the configuration", hex(hdr))
+        rec.model.append({"op": "xmcdhdr", "args": [len(b1), A.ct.tag, (hdr >> 16) & 0xF, MEMORY_INTERFACE_TO_VALUE[A.mt]], "hdr": hdr,
+                          "inp": list(map(str, inp))})
     elif kind == "fcb":
         E(b1[:4] == b"FCFB", inp, "FCB does not start with the FCFB tag", b1[:4])
         from spsdk.utils.misc import swap_bytes
@@ -1272,6 +1278,9 @@ def _correspondence(ck, drv, cases, recs):
             if it["op"] == "export":
                 lines.append(f"export {_csv(it['vals'])}")
                 expect.append("ok:" + it["bytes"])
+            elif it["op"] == "xmcdhdr":
+                lines.append("xmcdhdr " + " ".join(map(str, it["args"])))
+                expect.append(str(it["hdr"]))
             elif it["op"] == "crc":
                 lines.append(f"crc {it['bytes']}")
                 expect.append(str(it["crc"]))
